@@ -276,9 +276,11 @@ def run(ctx: Ctx) -> None:
         X = xs_.unsqueeze(0).expand(R, len(xs_)).contiguous()
         torch.randint = enum_randint3
         try:
-            want = f.quantise(X)
-            want0 = f.quantise(torch.tensor(mx * 2, dtype=torch.float32))
-            for dd in (torch.float64, torch.bfloat16, torch.float16):
+            want = want0 = None
+            with ctx.guard("C14:default-dtype:float32", {"E": E, "M": M, "srbits": sb}):
+                want = f.quantise(X)
+                want0 = f.quantise(torch.tensor(mx * 2, dtype=torch.float32))
+            for dd in ((torch.float64, torch.bfloat16, torch.float16) if want is not None and want0 is not None else ()):
                 key = {"E": E, "M": M, "srbits": sb, "default_dtype": str(dd)}
                 ctx.count(key, bucket="default-dtype")
                 try:
